@@ -89,3 +89,37 @@ pub fn gen_c01(out: &mut dyn Write, thorough: bool, seed: u64) {
         }
     }
 }
+
+/// C06: tag prediction. Boundaries come from prediction, or are then edited (as a filter would) incl. unknowns.
+pub fn gen_c06(out: &mut dyn Write, thorough: bool, seed: u64) {
+    use crate::model::{gen_tag_models, gen_text_tags};
+    let mut r = Rng::new(seed ^ 0xC06);
+    let opts = GenOpts { windows: &[1, 2, 3, 4, 9], max_ngrams: 5, max_words: 3, max_word_len: 4 };
+    let n_models = if thorough { 10000 } else { 500 };
+    for _ in 0..n_models {
+        let (mut m, alpha) = gen_model(&mut r, &opts);
+        gen_tag_models(&mut r, &mut m, &alpha, 4);
+        // S-C06 probe inside the domain: sometimes drop all boundary n-grams and words so only tag n-grams remain
+        if r.chance(1, 10) {
+            m.char_ngrams.clear();
+            m.dict.clear();
+        }
+        if r.chance(1, 10) {
+            m.type_ngrams.clear();
+        }
+        let mt = m.to_text();
+        let store = if r.chance(1, 2) { "1" } else { "0" };
+        for _ in 0..(if thorough { 6 } else { 4 }) {
+            let text = gen_text_tags(&mut r, &m, &alpha, 14);
+            let n = text.chars().count();
+            let mut ops = format!("Fraw:{},pred:0", hexs(&text));
+            if n > 1 && r.chance(1, 2) {
+                // edit some boundaries after prediction (what a sentence filter does), sometimes to unknown
+                for _ in 0..r.range(1, 3) {
+                    ops.push_str(&format!(",setb:{}:{}", r.below(n - 1), r.pick(&['N', 'W', 'W', 'U'])));
+                }
+            }
+            writeln!(out, "H {CFG} {mt}^1{store} {ops},fill,obs:BKGIC,tspec:0 c06").unwrap();
+        }
+    }
+}
